@@ -143,8 +143,8 @@ pub fn cli_main(lookup: &dyn Fn(&str) -> Option<Box<dyn runner::Prop>>, special:
 pub fn c12_replay(v: &serde_json::Value, path: &str) -> Option<i32> {
     let h = v["history_codes"].as_array()?;
     runner::install_panic_hook();
-    let h: Vec<u8> = h.iter().map(|x| x.as_u64().unwrap() as u8).collect();
-    Some(match fsm::run_history(&h) {
+    let h: Vec<usize> = h.iter().map(|x| x.as_u64().unwrap() as usize).collect();
+    Some(match fsm::run_history_codes(&h) {
         Ok(keys) => {
             println!("replay: history holds; keys {:?}", keys);
             0
@@ -203,7 +203,7 @@ pub fn c12_main(tier: Tier) -> i32 {
                 continue;
             }
             let desc = prop.describe(*idx);
-            let codes: Vec<u8> = desc["history"].as_array().map(|a| a.iter().map(|n| fsm::EVENTS.iter().position(|e| Some(*e) == n.as_str()).unwrap_or(0) as u8).collect()).unwrap_or_default();
+            let codes: Vec<usize> = desc["history"].as_array().map(|a| a.iter().map(|n| n.as_str().and_then(fsm::event_code).unwrap_or(0)).collect()).unwrap_or_default();
             handle(sig, json!({"idx": idx, "history_codes": codes, "history": desc["history"], "detail": detail, "occurrences": count, "found_by": "unmerged histories"}), detail);
         }
     }
